@@ -73,29 +73,54 @@ def _outcome(body) -> str:
 
 
 def extract_ladder(func_node):
-    """Ordered [(types, outcome, node)] of the top-level isinstance dispatch of a function:
-    sequential `if isinstance(...): return/raise` statements and if/elif chains."""
+    """Ordered [(types, outcome, node)] of the isinstance dispatch of a function on one subject: the
+    `if isinstance(subject, ...)` statements at dispatch level, in source order.  Dispatch level is the function
+    body, the else-branch of a rung (elif chains, nested else), and the blocks of statements that merely wrap the
+    dispatch (a guard on something else, try, with); the body of a rung is its outcome and is not searched."""
     out = []
-
-    def visit_if(st, subj_holder):
-        t = _types_of_test(st.test)
-        if t is not None:
-            if subj_holder[0] is None:
-                subj_holder[0] = t[0]
-            if t[0] == subj_holder[0]:
-                out.append((t[1], _outcome(st.body), st))
-        if len(st.orelse) == 1 and isinstance(st.orelse[0], ast.If):
-            visit_if(st.orelse[0], subj_holder)
-
     holder = [None]
-    for st in func_node.body:
-        if isinstance(st, ast.If):
-            visit_if(st, holder)
+
+    def block(stmts):
+        for st in stmts:
+            if isinstance(st, ast.If):
+                t = _types_of_test(st.test)
+                if t is not None:
+                    if holder[0] is None:
+                        holder[0] = t[0]
+                    if t[0] == holder[0]:
+                        out.append((t[1], _outcome(st.body), st))
+                        block(st.orelse)
+                        continue
+                block(st.body)
+                block(st.orelse)
+            elif isinstance(st, ast.Try):
+                block(st.body)
+                block(st.orelse)
+                block(st.finalbody)
+            elif isinstance(st, (ast.With, ast.AsyncWith)):
+                block(st.body)
+
+    block(func_node.body)
     return out
 
 
+def _rung_literal(fa: FA, rung, name):
+    """The branch literal (as fa.conditions spells it) of the isinstance test of `rung` that mentions type `name`."""
+    ids = fa.nodes(rung.test)
+    if not ids:
+        return None
+    for atom in A.test_atoms(rung.test):
+        it = A.isinstance_types(atom)
+        if it and name in it[1]:
+            return fa._literal(atom, ids[0], True)[0]
+    return None
+
+
 def check_ladder_order(ck, rule, fa: FA, ladder, pairs, label):
-    """For each (sub, sup) both tested with different outcomes: sub first."""
+    """For each (sub, sup) both tested with different outcomes: a `sub` value never takes sup's outcome, i.e.
+    sup's outcome is only reached with `isinstance(x, sub)` already found false.  Decided on the path conditions
+    of sup's outcome (so it does not matter whether the dispatch is written as early returns, an elif chain or
+    nested else blocks); for handler lists, and when the conditions cannot be enumerated, by position."""
     def idx_of(name):
         for i, (types, outcome, node) in enumerate(ladder):
             if name in types:
@@ -110,6 +135,12 @@ def check_ladder_order(ck, rule, fa: FA, ladder, pairs, label):
             continue
         n += 1
         ok = i < j
+        ri, rj = ladder[i][2], ladder[j][2]
+        if isinstance(ri, ast.If) and isinstance(rj, ast.If) and rj.body and fa.nodes(rj.body[0]):
+            lit = _rung_literal(fa, ri, sub)
+            conds = fa.conditions(rj.body[0]) if lit is not None else None
+            if conds:
+                ok = all((lit, False) in c for c in conds)
         ck.ob(rule, fa.key(None, "%s:%s-before-%s" % (label, sub, sup)), ok,
               "%s is tested before its superclass %s" % (sub, sup) if ok else
               "%s is tested after its superclass %s: a %s value takes the %s branch" % (sub, sup, sub, sup), fa.where(ladder[j][2]))
